@@ -328,6 +328,7 @@ func (w *World) onEvent(ev *simrt.Event) {
 		if ok {
 			w.checkLockTenure(ev, cls)
 			w.checkListedRemoved(ev)
+			w.checkLiveFileRemoved(ev, cls)
 			if ev.Kind == "rename" {
 				if o, has := w.owner[ev.Path]; has {
 					w.owner[ev.Path2] = o
@@ -400,6 +401,40 @@ func (w *World) checkLockTenure(ev *simrt.Event, cls string) {
 		w.violate("C08", "lock-tenure", fmt.Sprintf("%s-by-nonowner/%s/%s/%s", ev.Kind, cls, kind, ev.Caller),
 			fmt.Sprintf("%s of %s by task %d op %d (%s); created by task %d op %d", ev.Kind, ev.Path, ev.Task, ev.Op, ev.Caller, o.Task, o.Op))
 	}
+}
+
+// checkLiveFileRemoved (C16): "Close and Clean remove only stale files". A
+// file is in use, not stale, while the operation that created it is still
+// running in a live process, or while the Addition that created it is open.
+// Close or Clean of ANOTHER process removing or renaming such a file
+// (a compaction's temporary table or table locks, an open Addition's
+// uncommitted tables) is a violation, whatever becomes of the victim.
+func (w *World) checkLiveFileRemoved(ev *simrt.Event, cls string) {
+	cr := w.curCall[ev.Task]
+	if cr == nil || (cr.Kind != OpClean && cr.Kind != OpClose) {
+		return
+	}
+	o, has := w.owner[ev.Path]
+	if !has || o.Task == ev.Task || o.Task < 0 || o.Task >= len(w.Sim.Tasks) {
+		return
+	}
+	if t := w.Sim.Tasks[o.Task]; t.Crashed || t.Killed {
+		return
+	}
+	live := false
+	if oc := w.curCall[o.Task]; oc != nil && oc.Op == o.Op && !oc.Done {
+		live = true
+	}
+	if o.Handle >= 0 && o.Handle < len(w.Handles) {
+		if hs := w.Handles[o.Handle]; hs.Tr != nil && hs.TrOp == o.Op && hs.TrOp != 0 {
+			live = true
+		}
+	}
+	if !live {
+		return
+	}
+	w.violate("C16", "live-file-removed", fmt.Sprintf("%s/%s/%s", cr.Kind, cls, ev.Caller),
+		fmt.Sprintf("%s of %s by task %d during %s (%s): created by task %d in an operation that is still running", ev.Kind, ev.Path, ev.Task, cr.Kind, ev.Caller, o.Task))
 }
 
 // checkListedRemoved: no garbage-collection step ever removes a table that
